@@ -466,7 +466,7 @@ func (g *ExprGen) Num(d int) Expr {
 	case c < 9:
 		save := g.Cfg.Axes
 		if g.Cfg.ForwardSum {
-			g.Cfg.Axes = ForwardAxes
+			g.Cfg.Axes = forwardOnly(g.Cfg.Axes)
 		}
 		e := Call{Base: Ctx{}, Name: "sum", Args: []Expr{g.forwardNodeSet(d - 1)}}
 		g.Cfg.Axes = save
@@ -587,4 +587,21 @@ func (g *ExprGen) nodeDependentNumber() Expr {
 		return Bin{Op: "sub", L: Bin{Op: "add", L: Call{Base: Ctx{}, Name: "last"}, R: NumLit{Text: "1"}}, R: Call{Base: Ctx{}, Name: "position"}}
 	}
 	return Call{Base: Ctx{}, Name: "string-length", Args: []Expr{Ctx{}}}
+}
+
+// forwardOnly keeps the forward axes of a pool (node-sets in document order)
+func forwardOnly(axes []string) []string {
+	var out []string
+	for _, a := range axes {
+		for _, f := range ForwardAxes {
+			if a == f {
+				out = append(out, a)
+				break
+			}
+		}
+	}
+	if len(out) == 0 {
+		return []string{"child"}
+	}
+	return out
 }
